@@ -1,6 +1,6 @@
 // Model of the top-level assembly (lib::create_shader_module_inner): C04 pipeline layout order, C09 non-interference,
 // C13 emission, C16 SOURCE item, C17 gating, C18 functional dependence, C19 printer choice.  Pure specifications.
-// Callees whose units do not exist yet are abstracted as uninterpreted functions of their arguments.
+// Every callee contract used here is the concrete contract proved in the callee's own unit (stubs are checked token for token).
 #![allow(unused_imports)]
 use vstd::prelude::*;
 use crate::prelude::*;
@@ -15,7 +15,7 @@ use crate::model_reach::*;
 use crate::model_structs::*;
 use crate::model_consts::*;
 use crate::model_entry::*;
-use crate::model_vertex::{vertex_args_wf, vertex_states_toks};
+use crate::model_vertex::{vertex_args_wf, vertex_states_toks, vertex_fields_wf, vertex_methods_post};
 use crate::naga_front::*;
 use crate::print_model::*;
 use crate::print_model::process_model::*;
@@ -32,9 +32,11 @@ pub open spec fn struct_opts(o: WriteOptions) -> StructOpts {
 }
 
 // ---- abstract contracts of callees proved (or to be proved) elsewhere: results are functions of the arguments ----
-pub uninterp spec fn pre_stages(m: &naga::Module) -> bool;
-pub uninterp spec fn spec_global_stages(m: &naga::Module) -> Map<String, wgpu::ShaderStages>;
-pub uninterp spec fn spec_entry_bits(m: &naga::Module) -> u32;
+// the stage analysis: the concrete contracts of wgsl::global_shader_stages / entry_stages (proved in unit stages).  The map is
+// THE stage map of the module: bounded + exact + complete have exactly one solution (model_stages::lemma_stages_unique).
+pub open spec fn pre_stages(m: &naga::Module) -> bool { crate::model_stages::wf(m) && crate::model_stages::wf_entries(m) }
+pub open spec fn spec_global_stages(m: &naga::Module) -> Map<String, wgpu::ShaderStages> { crate::model_stages::stage_map_of(m) }
+pub open spec fn spec_entry_bits(m: &naga::Module) -> u32 { crate::model_stages::entry_bits(m.entry_points@) }
 // the struct section: the concrete contract of structs::structs (proved in unit structs), read through the five struct switches only
 pub open spec fn opts_of(so: StructOpts) -> WriteOptions {
     WriteOptions { derive_bytemuck_vertex: so.bytemuck_vertex, derive_bytemuck_host_shareable: so.bytemuck_host, derive_encase_host_shareable: so.encase_host,
@@ -46,8 +48,10 @@ pub open spec fn pre_consts(m: &naga::Module) -> bool { consts_wf(m) }
 pub open spec fn spec_consts(m: &naga::Module) -> Seq<Seq<Tok>> { consts_items(m) }
 pub open spec fn pre_overrides(m: &naga::Module) -> bool { overrides_supported(m) }
 pub open spec fn spec_overrides(m: &naga::Module) -> Seq<Tok> { overrides_toks(m) }
-pub uninterp spec fn pre_vertex_methods(m: &naga::Module) -> bool;
-pub uninterp spec fn spec_vertex_methods(m: &naga::Module) -> Seq<Tok>;
+// the vertex section: the concrete contract of entry::vertex_struct_methods (proved in unit vertex).  It is a RELATION
+// (vertex_methods_post: one impl block per vertex input struct, every such struct, none twice - the order of the blocks is
+// left to sort_by_key), so the output specification takes the section as an argument `vm` constrained by it.
+pub open spec fn pre_vertex_methods(m: &naga::Module) -> bool { vertex_args_wf(m) && vertex_fields_wf(m) }
 pub open spec fn pre_entry_consts(m: &naga::Module) -> bool { true }
 pub open spec fn spec_entry_consts(m: &naga::Module) -> Seq<Tok> { entry_consts_toks(m.entry_points@) }
 pub open spec fn pre_vertex_states(m: &naga::Module) -> bool { vertex_args_wf(m) }
@@ -105,12 +109,11 @@ pub open spec fn pc_ok(m: &naga::Module, gs: Map<String, wgpu::ShaderStages>, eb
 
 // ---- the whole module ----
 pub open spec fn output_toks(m: &naga::Module, src: Seq<char>, path: Option<Seq<char>>, so: StructOpts,
-                             gmap: Map<u32, GroupData>, ks: Seq<u32>, pcr: Option<Seq<Tok>>, pcs: Option<Seq<Tok>>) -> Seq<Tok> {
+                             gmap: Map<u32, GroupData>, ks: Seq<u32>, pcr: Option<Seq<Tok>>, pcs: Option<Seq<Tok>>, vm: Seq<Tok>) -> Seq<Tok> {
     let structs = spec_structs(m, so);
     let consts = flat(spec_consts(m), Seq::empty(), Seq::empty(), Seq::empty());
     let overrides = spec_overrides(m);
     let bgm = bind_groups_module_toks(ks, gmap, spec_global_stages(m));
-    let vm = spec_vertex_methods(m);
     let cm = compute_module_toks(m.entry_points@);
     let ec = spec_entry_consts(m);
     let vs = spec_vertex_states(m);
@@ -138,10 +141,11 @@ pub open spec fn bgd_ok(m: &naga::Module, gmap: Map<u32, GroupData>) -> bool {
     no_dup_upto(m, n) && dense(m, gmap.len() as int) && groups_ok(m, gmap, n)
 }
 pub open spec fn gen_ok(m: &naga::Module, src: Seq<char>, path: Option<Seq<char>>, so: StructOpts, rustfmt: bool, text: Seq<char>,
-                        gmap: Map<u32, GroupData>, ks: Seq<u32>, pcr: Option<Seq<Tok>>, pcs: Option<Seq<Tok>>) -> bool {
+                        gmap: Map<u32, GroupData>, ks: Seq<u32>, pcr: Option<Seq<Tok>>, pcs: Option<Seq<Tok>>, vm: Seq<Tok>) -> bool {
     &&& bgd_ok(m, gmap) && is_keys(ks, gmap.dom())
+    &&& vertex_methods_post(m, vm)
     &&& pc_ok(m, spec_global_stages(m), spec_entry_bits(m), pcr, pcs)
-    &&& printed(output_toks(m, src, path, so, gmap, ks, pcr, pcs), rustfmt, text)
+    &&& printed(output_toks(m, src, path, so, gmap, ks, pcr, pcs, vm), rustfmt, text)
 }
 // everything after parsing/validation: depends on the options ONLY through struct_opts and the rustfmt switch
 pub open spec fn gen_rest_post(m: &naga::Module, src: Seq<char>, path: Option<Seq<char>>, so: StructOpts, rustfmt: bool, r: Result<String, CreateModuleError>) -> bool {
@@ -149,8 +153,8 @@ pub open spec fn gen_rest_post(m: &naga::Module, src: Seq<char>, path: Option<Se
         Err(CreateModuleError::DuplicateBinding { binding }) => bgd_post(m, Err(CreateModuleError::DuplicateBinding { binding })),
         Err(CreateModuleError::NonConsecutiveBindGroups) => bgd_post(m, Err(CreateModuleError::NonConsecutiveBindGroups)),
         Err(_) => false,
-        Ok(text) => exists|gmap: Map<u32, GroupData>, ks: Seq<u32>, pcr: Option<Seq<Tok>>, pcs: Option<Seq<Tok>>|
-            #[trigger] gen_ok(m, src, path, so, rustfmt, text@, gmap, ks, pcr, pcs),
+        Ok(text) => exists|gmap: Map<u32, GroupData>, ks: Seq<u32>, pcr: Option<Seq<Tok>>, pcs: Option<Seq<Tok>>, vm: Seq<Tok>|
+            #[trigger] gen_ok(m, src, path, so, rustfmt, text@, gmap, ks, pcr, pcs, vm),
     }
 }
 // the documented feature set (abstract where the callee's unit does not exist yet) and naga's own invariants
@@ -180,8 +184,8 @@ pub open spec fn gen_pre(src: Seq<char>, path: Option<Seq<char>>, options: Write
     spec_parse(src) is Ok ==> {
         let m = spec_parse(src)->Ok_0;
         &&& supported(&m, struct_opts(options))
-        &&& !options.rustfmt ==> forall|gmap: Map<u32, GroupData>, ks: Seq<u32>, pcr: Option<Seq<Tok>>, pcs: Option<Seq<Tok>>|
-                parse_file_spec(tokens_string(#[trigger] output_toks(&m, src, path, struct_opts(options), gmap, ks, pcr, pcs))) is Some
+        &&& !options.rustfmt ==> forall|gmap: Map<u32, GroupData>, ks: Seq<u32>, pcr: Option<Seq<Tok>>, pcs: Option<Seq<Tok>>, vm: Seq<Tok>|
+                parse_file_spec(tokens_string(#[trigger] output_toks(&m, src, path, struct_opts(options), gmap, ks, pcr, pcs, vm))) is Some
     }
 }
 
